@@ -131,6 +131,69 @@ void check_object(const tobject& object, const std::string& id, int oidx)
     }
 }
 
+long g_fresh = 0;
+// objects that hold other configurable objects: a clone must carry their configuration too (solver -> its two line-search objects)
+void check_nested(const solver_t& object, int oidx)
+{
+    for (const auto& lid : lsearchk_t::all().ids())
+    {
+        auto lsk = lsearchk_t::all().get(lid);
+        // a non-default, symbolic in-domain tolerance pair is not kept (make_lsearch() overwrites it from the solver), so vary the
+        // iteration budget (integer) and, where present, a scalar parameter of the concrete line-search
+        lsk->parameter("lsearchk::max_iterations") = 7;
+        for (const auto& p : lsk->parameters())
+            if (const auto* fr = std::get_if<parameter_t::frange_t>(&p.m_storage))
+            {
+                const double v = sym_real(sym_nm("nv", oidx, g_fresh++));
+                sym_assume_cmp(v, std::holds_alternative<LE_t>(fr->m_mincomp) ? SYM_GE : SYM_GT, fr->m_min);
+                sym_assume_cmp(v, std::holds_alternative<LE_t>(fr->m_maxcomp) ? SYM_LE : SYM_LT, fr->m_max);
+                lsk->parameter(p.name()) = v;
+            }
+        auto solver = object.clone();
+        solver->lsearchk(*lsk);
+        const auto copy = solver->clone();
+        SYM_CHECK(copy->lsearchk().type_id() == lid, "clone keeps the id of the installed line-search");
+        const auto& a = solver->lsearchk().parameters();
+        const auto& b = copy->lsearchk().parameters();
+        bool same = a.size() == b.size();
+        for (size_t i = 0; same && i < a.size(); ++i)
+        {
+            const auto* fa = std::get_if<parameter_t::frange_t>(&a[i].m_storage);
+            const auto* fb = std::get_if<parameter_t::frange_t>(&b[i].m_storage);
+            if (fa && fb) same = sym_same(fa->m_value, fb->m_value) && fa->m_min == fb->m_min && fa->m_max == fb->m_max;
+            else same = a[i] == b[i];
+        }
+        SYM_CHECK(same, "clone of a solver carries the parameters of its installed line-search object (symbolic values)");
+    }
+    for (const auto& lid : lsearch0_t::all().ids())
+    {
+        auto ls0 = lsearch0_t::all().get(lid);
+        for (const auto& p : ls0->parameters())
+            if (const auto* fr = std::get_if<parameter_t::frange_t>(&p.m_storage))
+            {
+                const double v = sym_real(sym_nm("n0", oidx, g_fresh++));
+                sym_assume_cmp(v, std::holds_alternative<LE_t>(fr->m_mincomp) ? SYM_GE : SYM_GT, fr->m_min);
+                sym_assume_cmp(v, std::holds_alternative<LE_t>(fr->m_maxcomp) ? SYM_LE : SYM_LT, fr->m_max);
+                ls0->parameter(p.name()) = v;
+            }
+        auto solver = object.clone();
+        solver->lsearch0(*ls0);
+        const auto copy = solver->clone();
+        SYM_CHECK(copy->lsearch0().type_id() == lid, "clone keeps the id of the installed step-length initialiser");
+        const auto& a = solver->lsearch0().parameters();
+        const auto& b = copy->lsearch0().parameters();
+        bool same = a.size() == b.size();
+        for (size_t i = 0; same && i < a.size(); ++i)
+        {
+            const auto* fa = std::get_if<parameter_t::frange_t>(&a[i].m_storage);
+            const auto* fb = std::get_if<parameter_t::frange_t>(&b[i].m_storage);
+            if (fa && fb) same = sym_same(fa->m_value, fb->m_value) && fa->m_min == fb->m_min && fa->m_max == fb->m_max;
+            else same = a[i] == b[i];
+        }
+        SYM_CHECK(same, "clone of a solver carries the parameters of its installed step-length initialiser (symbolic values)");
+    }
+}
+
 template <class tfactory>
 void check_factory(tfactory& factory)
 {
@@ -145,6 +208,8 @@ void check_factory(tfactory& factory)
             const auto object = factory.get(id);
             SYM_CHECK(static_cast<bool>(object), "factory returns an object for every registered id");
             if (object) check_object(*object, id, static_cast<int>(idx));
+            if constexpr (std::is_same_v<tfactory, factory_t<solver_t>>)
+                if (object && cfgi("nested", 0)) check_nested(*object, static_cast<int>(idx));
         }
         ++idx;
     }
